@@ -108,6 +108,26 @@ impl ArcWake for WakeEntry {
 /// marker payload of panics the harness injects on purpose
 pub struct InjectedPanic;
 
+thread_local! {
+    static LAST_PANIC_LOC: RefCell<Option<String>> = const { RefCell::new(None) };
+}
+
+/// Process-wide panic hook: injected panics are silent, all others record their location (the
+/// executor attaches it to `foreign_panics`) and are printed only with HV_VERBOSE=1.
+pub fn install_panic_hook() {
+    let verbose = std::env::var_os("HV_VERBOSE").is_some();
+    std::panic::set_hook(Box::new(move |info| {
+        if info.payload().is::<InjectedPanic>() {
+            return;
+        }
+        let loc = info.location().map(|l| format!("{}:{}", l.file(), l.line())).unwrap_or_default();
+        LAST_PANIC_LOC.with(|c| *c.borrow_mut() = Some(loc.clone()));
+        if verbose {
+            eprintln!("panic at {loc}: {info}");
+        }
+    }));
+}
+
 #[derive(Clone, Copy, Debug, PartialEq, Eq)]
 pub enum SimEvent {
     Spawned(TaskId),
@@ -341,7 +361,8 @@ impl Sim {
                         .cloned()
                         .or_else(|| payload.downcast_ref::<&str>().map(|s| s.to_string()))
                         .unwrap_or_else(|| "<non-string panic>".into());
-                    self.foreign_panics.borrow_mut().push((id, msg));
+                    let loc = LAST_PANIC_LOC.with(|c| c.borrow_mut().take()).unwrap_or_default();
+                    self.foreign_panics.borrow_mut().push((id, format!("{loc}: {msg}")));
                 }
                 self.finish(id, TaskEnd::Panicked { injected });
                 let _ = catch_unwind(AssertUnwindSafe(move || drop(fut)));
